@@ -7,7 +7,7 @@
     [run]: allocations (guarded by HasSpace, as the store does), Write/flush/abandon steps
     of any writer in any interleaving. *)
 From BBS Require Import Common.Sx Store.SectorWriter Store.SectorWriterProofs Store.SectorWriterSpec
-  Store.SectorWriterCommute Store.SectorWriterInv Run.R01S.
+  Store.SectorWriterCommute Store.SectorWriterInv Store.SectorWriterAccum Run.R01S.
 
 (** Byte ranges handed out by successive allocations are in order and pairwise disjoint,
     start at or above the initial cursor, end within the block; HasSpace is exactly "fits". *)
@@ -57,6 +57,68 @@ Theorem private_write_commutes : forall c s ea eb ka kb ta tb sa la sb lb,
   exists sab, step c sa eb = Some (sab, lb) /\ step c sb ea = Some (sab, la).
 Proof. exact private_write_commutes_gen. Qed.
 Print Assumptions private_write_commutes.
+
+(** A shared-sector image contains, for every writer touching that sector, the bytes it has
+    copied so far ([copied]: bytes of its first, shared sector as soon as they were passed to
+    Write; bytes of its last sector once it has flushed) — whatever the other writers of that
+    sector did in between.  Since [flush] and the completion of the first sector write the image
+    itself ([flush_writes_image], [write_first_writes_image]), every device write of a shared
+    sector re-writes all bytes of the writers that already flushed. *)
+Theorem shared_sector_accumulates : forall c dev b0 tr s,
+  1 <= c_sector c -> b_shared b0 = None ->
+  run c (init_state dev b0) tr = Some s ->
+  forall id j t pos, id < length (st_images s) -> nth_error (st_threads s) j = Some t ->
+    t_start t <= pos < t_start t + t_size t ->
+    pos / c_sector c = im_sec (nth id (st_images s) dimg) ->
+    copied c t pos ->
+    nth (pos mod c_sector c) (img_data (st_images s) id) 0%Z = nth (pos - t_start t) (t_data t) 0%Z.
+Proof. exact shared_sector_accumulates_proof. Qed.
+Print Assumptions shared_sector_accumulates.
+
+Theorem shared_sector_writes_carry_image_partial :
+  (forall c images w id, w_last w = Some id -> id < length images ->
+     snd (flush c images w) =
+     [(w_off w * length (img_data (fst (flush c images w)) id), img_data (fst (flush c images w)) id)]) /\
+  (forall c images w p id,
+     w_first w = Some id -> id < length images -> length (img_data images id) = c_sector c ->
+     w_firstoff w < c_sector c -> c_sector c <= w_firstoff w + length p ->
+     exists rest, snd (write c images w p) =
+       (w_off w * c_sector c, img_data (fst (fst (write c images w p))) id) :: rest).
+Proof. split; [exact flush_writes_image|exact write_first_writes_image]. Qed.
+Print Assumptions shared_sector_writes_carry_image_partial.
+
+(* NOT YET PROVED (full statement kept; its ingredients are proved above and the monitor of
+   Run/R01S.v (clause 1) checks it on every implementation run, at every step):
+
+   Theorem completed_writer_data_on_device : forall c dev b0 tr s k t,
+     1 <= c_sector c -> b_shared b0 = None ->
+     (c_base c + c_spb c) * c_sector c <= length dev ->
+     run c (init_state dev b0) tr = Some s ->
+     nth_error (st_threads s) k = Some t -> t_status t = Flushed ->
+     forall i, i < t_size t ->
+       nth (c_base c * c_sector c + t_start t + i) (st_dev s) 0%Z = nth i (t_data t) 0%Z.
+   (Since [tr] is arbitrary this includes every continuation by other writers, abandoned ones
+   and ones that start later in the same sector.)
+
+   Proved towards it: the ranges are disjoint ([allocations_disjoint]); every device write of
+   another writer lies in that writer's own sectors ([writer_writes_only_own_sectors]), its
+   private part tiles its own byte range (Store/SectorWriterSpec.v: [write_rest_spec],
+   [contig_apply]); the only writes that can touch a sector of a completed writer k from outside
+   are writes of a shared image, and the image holds all of k's bytes of that sector
+   ([shared_sector_accumulates] with [copied] true for every byte of a flushed writer that lies
+   in a shared sector).  Missing: the induction that carries "device = data" for completed
+   sectors through these writes. *)
+Theorem completed_writer_data_in_images_partial : forall c dev b0 tr s id k t pos,
+  1 <= c_sector c -> b_shared b0 = None ->
+  run c (init_state dev b0) tr = Some s ->
+  nth_error (st_threads s) k = Some t -> t_status t = Flushed -> length (t_data t) = t_size t ->
+  id < length (st_images s) -> t_start t <= pos < t_start t + t_size t ->
+  pos / c_sector c = im_sec (nth id (st_images s) dimg) ->
+  (pos / c_sector c = t_start t / c_sector c /\ t_first0 t <> None \/
+   pos / c_sector c = (t_start t + t_size t) / c_sector c) ->
+  nth (pos mod c_sector c) (img_data (st_images s) id) 0%Z = nth (pos - t_start t) (t_data t) 0%Z.
+Proof. exact completed_in_images. Qed.
+Print Assumptions completed_writer_data_in_images_partial.
 
 (** Non-vacuity: two writers sharing a sector (sector size 4), interleaved, both complete;
     three writers in one sector, the middle one abandoned; a restored block. *)
